@@ -32,10 +32,11 @@ ASSUMPTIONS = [
 ]
 
 ARITH = ["c*0.5+k", "jnp.sin(c)+1.0", "c+CONST", "c*c*0.25-k", "jnp.where(c>k,c,k*0.5)", "c+xrow", "c+i", "jnp.tanh(c)*2.0", "c-jnp.sum(k)",
-         "jnp.maximum(c,k)-0.5", "c*jnp.float32(0.9)+xrow*0.1"]
+         "jnp.maximum(c,k)-0.5", "c*jnp.float32(0.9)+xrow*0.1", "c*0.5+i", "c*0.75-k+i"]
 CONST = np.array([0.25, -1.0, 2.0], np.float32)
-KINDS = ("arith", "seq", "cond", "switch2", "while", "fori", "scan_y", "scan_len", "scan2", "switch3", "scan_rev", "fori_dyn", "while_data")
-UNSUPPORTED = ("switch3", "scan_rev", "fori_dyn")
+KINDS = ("arith", "seq", "cond", "switch2", "while", "fori", "scan_y", "scan_len", "scan2", "switch3", "scan_rev", "fori_dyn", "while_data",
+         "while2", "scan_rev_len")
+UNSUPPORTED = ("switch3", "scan_rev", "fori_dyn", "scan_rev_len")
 
 
 def body_strategy(depth, unsupported_p=40):
@@ -52,15 +53,18 @@ def body_strategy(depth, unsupported_p=40):
         st.tuples(st.just("switch2"), st.sampled_from(["n", "n-1"]), sub, sub).map(list),
         st.tuples(st.just("while"), st.sampled_from(["n", "n-1", "2"]), sub).map(list),
         st.tuples(st.just("while_data"), st.sampled_from([1.5, 4.0, 0.1]), sub).map(list),
-        st.tuples(st.just("fori"), st.sampled_from([[0, 0], [0, 1], [0, 3], [2, 5], [3, 3]]), sub).map(list),
+        st.tuples(st.just("fori"), st.sampled_from([[0, 0], [0, 1], [0, 3], [2, 5], [3, 3], [-3, 1], [-1, 0], [-2, 3], [-4, -2]]),
+                  st.one_of(sub, st.tuples(st.just("arith"), st.sampled_from(["c+i", "c*0.5+i", "c*0.75-k+i"])).map(list))).map(list),
         st.tuples(st.just("scan_y"), sub).map(list),
         st.tuples(st.just("scan_len"), st.sampled_from([0, 1, 3]), sub).map(list),
         st.tuples(st.just("scan2"), sub).map(list),
+        st.tuples(st.just("while2"), st.sampled_from(["n", "n-1", "2"]), st.sampled_from(["fib", "rotate", "keep"]), sub).map(list),
     ]
     unsupported = [
         st.tuples(st.just("switch3"), st.sampled_from(["n", "n-1"]), sub, sub, sub).map(list),
         st.tuples(st.just("scan_rev"), sub).map(list),
         st.tuples(st.just("fori_dyn"), sub).map(list),
+        st.tuples(st.just("scan_rev_len"), st.sampled_from([1, 2, 4]), sub).map(list),
     ]
     return st.integers(0, unsupported_p).flatmap(lambda r: st.one_of(*unsupported) if r == 0 else st.one_of(*supported))
 
@@ -76,6 +80,8 @@ def run_body(b, c, env):
             e = e.replace("xrow", "k")
         if "+i" in e and env.get("i") is None:
             e = e.replace("+i", "+1.0")
+        if "-i" in e and env.get("i") is None:
+            e = e.replace("-i", "-1.0")
         loc = dict(c=c, k=env["k"], n=env["n"], p=env["p"], jnp=jnp, CONST=jnp.asarray(CONST), xrow=env.get("xrow"),
                    i=(env.get("i").astype(jnp.float32) if env.get("i") is not None else None))
         return eval(e, loc)
@@ -98,6 +104,30 @@ def run_body(b, c, env):
             return run_body(b[2], v, dict(env, i=j)), j + 1
 
         return lax.while_loop(lambda st_: st_[1] < bound, bd, (c, jnp.int32(0)))[0]
+    if t == "while2":
+        bound = jnp.asarray(eval(b[1], dict(n=env["n"])), jnp.int32)
+        mode = b[2]
+
+        def bd3(st_):
+            u, v, j = st_
+            nu = run_body(b[3], u, dict(env, i=j))
+            if mode == "fib":
+                return v, nu * 0.5 + v, j + 1  # an incoming carry moves to another slot
+            if mode == "rotate":
+                return v, u, j + 1
+            return nu, v, j + 1
+
+        u, v, _ = lax.while_loop(lambda st_: st_[2] < bound, bd3, (c, c * 0.5 + 1.0, jnp.int32(0)))
+        return u + 2.0 * v
+    if t == "scan_rev_len":
+        def step_rl(carry, _):
+            v, j = carry
+            nv = run_body(b[2], v, dict(env, i=j))
+            return (nv, j + 1), nv * (j.astype(jnp.float32) + 1.0)
+
+        (v, _), ys = lax.scan(step_rl, (c, jnp.int32(0)), None, length=b[1], reverse=True)
+        w = jnp.arange(1, b[1] + 1, dtype=jnp.float32)[:, None]
+        return v + jnp.sum(ys * w, axis=0)  # order-sensitive use of the stacked outputs
     if t == "while_data":
         thr = b[1]
 
@@ -109,7 +139,10 @@ def run_body(b, c, env):
         return lax.while_loop(lambda st_: jnp.logical_and(jnp.max(jnp.abs(st_[0])) > thr, st_[1] < 6), bd2, (c, jnp.int32(0)))[0]
     if t == "fori":
         lo, hi = b[1]
-        return lax.fori_loop(lo, hi, lambda j, v: run_body(b[2], v, dict(env, i=j)), c)
+        # fori_loop bodies that close over outer *traced* values are rejected by the converter (loud, counted);
+        # give the body a closed environment so that counted loops are actually exercised
+        closed = dict(env, k=jnp.asarray(CONST) * 0.5, y=jnp.full((2, 3), 0.3, jnp.float32), n=jnp.int32(2), p=jnp.asarray(True), xrow=None)
+        return lax.fori_loop(lo, hi, lambda j, v: run_body(b[2], v, dict(closed, i=j)), c)
     if t == "fori_dyn":
         return lax.fori_loop(0, env["n"], lambda j, v: run_body(b[1], v, dict(env, i=j)), c)
     if t == "scan_y":
@@ -161,13 +194,22 @@ def make_fn(b, stacked):
     def fn(x, y, n, p):
         env = dict(k=y.sum(axis=0) * 0.1 + 0.5 if y.shape[0] != 0 else jnp.full((3,), 0.5), n=n, p=p, y=y)
         out = run_body(b, x, env)
-        if stacked:
+        if stacked is True or stacked == "xs":
             def st_(v, row):
                 nv = v * 0.5 + row
                 return nv, nv * 2.0
 
             fin, ys = lax.scan(st_, out, y)
             return fin, ys
+        if isinstance(stacked, str) and stacked.startswith("len"):
+            L = int(stacked[3:])
+
+            def st2(v, _):
+                nv = v * 0.5 + 1.0
+                return nv, (nv * 2.0, jnp.sum(nv))
+
+            fin, (ys, ss) = lax.scan(st2, out, None, length=L)
+            return fin, ys, ss
         return out
 
     return fn
@@ -183,7 +225,36 @@ def nesting_string(b):
     return b[0] + (">" + inner if inner else "")
 
 
-def check_case(b, symT, stacked, acc=None, steer=None):
+def _same_failure(b, symT, stacked, steer1, facet):
+    try:
+        r = check_case(b, symT, stacked, None, steer=[steer1], _minimise=False)
+    except Exception:
+        return False
+    return bool(r) and r[0]["sig"].get("facet") == facet
+
+
+def _shrink_body(b, still_fails, budget=25):
+    """Greedy: replace sub-bodies by an arithmetic leaf / hoist a child while the same failure persists."""
+    leaf = ["arith", "c*0.5+k"]
+    cur = b
+    changed = True
+    while changed and budget > 0:
+        changed = False
+        for idx, x in enumerate(cur):
+            if isinstance(x, list) and x and isinstance(x[0], str) and x[0] in KINDS:
+                for cand in ([x] if x[0] != "arith" else []) + [cur[:idx] + [leaf] + cur[idx + 1:]]:
+                    if cand == cur or budget <= 0:
+                        continue
+                    budget -= 1
+                    if still_fails(cand):
+                        cur, changed = cand, True
+                        break
+                if changed:
+                    break
+    return cur
+
+
+def check_case(b, symT, stacked, acc=None, steer=None, _minimise=True):
     import jax
     import jax.numpy as jnp
     import onnx
@@ -243,19 +314,35 @@ def check_case(b, symT, stacked, acc=None, steer=None):
             acc.case(key=("cf", digest([b, symT, stacked]), T, n, bool(p)), nontrivial=(not benign) or kd.get("depth", 0) >= 2)
             acc.tally("steer", "run")
         bad = None
+        facet = "values"
         if len(got) != len(exp):
             bad = f"{len(got)} outputs vs {len(exp)}"
+            facet = "count"
         else:
             for g, e_ in zip(got, exp):
                 if g.shape != e_.shape:
                     bad = f"shape {g.shape} vs {e_.shape}"
+                    facet = "zero_length_stack_shape" if (len(e_.shape) >= 1 and e_.shape[0] == 0 and g.shape[:1] == (0,)) else "shape"
                     break
                 if not np.allclose(g, e_, rtol=2e-4, atol=2e-5 * max(1.0, float(np.abs(e_).max()) if e_.size else 1.0)):
                     bad = f"values {np.asarray(g).reshape(-1)[:3].tolist()} vs {np.asarray(e_).reshape(-1)[:3].tolist()}"
                     break
         if bad:
-            out.append({"sig": {"kind": "value", "nesting": nesting_string(b), "steering_class": steering_class, "unsupported": has_unsupported},
-                        "case": dict(case, steer=[[T, n, bool(p)]]), "detail": f"T={T},n={n},p={p}: {bad}"})
+            sig = {"kind": "value", "facet": facet, "nesting": nesting_string(b), "steering_class": steering_class, "unsupported": has_unsupported,
+                   "wrapper": str(stacked)}
+            vcase = dict(case, steer=[[T, n, bool(p)]])
+            if _minimise and b[0] != "arith":
+                # does the divergence need the generated body at all?  (keeps signatures about the construct that matters)
+                trivial = ["arith", "c*0.5+k"]
+                sub = check_case(trivial, symT, stacked, None, steer=[(T, n, p)], _minimise=False)
+                if sub and sub[0]["sig"]["facet"] == facet:
+                    sig = dict(sub[0]["sig"])
+                    vcase = sub[0]["case"]
+                else:
+                    small = _shrink_body(b, lambda bb: _same_failure(bb, symT, stacked, (T, n, p), facet))
+                    sig["nesting"] = nesting_string(small)
+                    vcase = dict(vcase, body=small)
+            out.append({"sig": sig, "case": vcase, "detail": f"T={T},n={n},p={p}: {bad}"})
             break
     return out
 
@@ -275,7 +362,7 @@ def work(sh):
     @hypothesis.seed(derive_seed(sh["seed"], "c06", sh["shard"]))
     @settings(max_examples=sh["examples"], deadline=None, database=None, suppress_health_check=list(HealthCheck),
               phases=[Phase.generate], report_multiple_bugs=False)
-    @given(body_strategy(3), st.booleans(), st.booleans())
+    @given(body_strategy(3), st.booleans(), st.sampled_from([False, False, "xs", "len0", "len1", "len3"]))
     def t(b, symT, stacked):
         kd = kinds(b, {})
         if not any(k for k in kd if k not in ("depth", "seq")):
